@@ -515,6 +515,33 @@ func do(s *server, c caller, cs credSpec, rng *rand.Rand) obs {
 	return o
 }
 
+// coarse groups for violation signatures (the exact class goes into the text)
+func credGroup(class string) string {
+	switch {
+	case strings.HasPrefix(class, "jws") || class == "oversize-jws":
+		return "jws-shaped"
+	case strings.HasPrefix(class, "oversize"):
+		return "oversized"
+	case strings.HasPrefix(class, "gray"):
+		return "near-jws-shapes"
+	case strings.HasPrefix(class, "json"), strings.HasPrefix(class, "body"), strings.HasPrefix(class, "chunked"), strings.HasPrefix(class, "content-length"):
+		return "unusable-or-odd-body"
+	}
+	return "opaque"
+}
+
+func callerGroup(kind string) string {
+	switch {
+	case strings.HasPrefix(kind, "no-authenticator"):
+		return "no-authenticator"
+	case strings.Contains(kind, "anonymous") || strings.Contains(kind, "unauthenticated"):
+		return "unauthenticated"
+	case strings.HasPrefix(kind, "authenticator-"):
+		return "authenticator-rejected"
+	}
+	return "authenticated-non-member"
+}
+
 type fixedBodies struct {
 	mu   sync.Mutex
 	seen map[int]string
@@ -651,11 +678,11 @@ func main() {
 				}
 				for _, f := range leakForms(c) {
 					if strings.Contains(o.Body, f) || strings.Contains(o.Header, f) {
-						r.Violation("leak:response:"+cs.class, "the credential appears in the response", wit())
+						r.Violation("leak:response:"+credGroup(cs.class), "the credential ("+cs.class+") appears in the response", wit())
 					}
 					for _, l := range o.Logs {
 						if strings.Contains(l, f) {
-							r.Violation("leak:log:"+cs.class, "the credential appears in a log record: "+trunc(l, 200), wit())
+							r.Violation("leak:log:"+credGroup(cs.class), "the credential ("+cs.class+") appears in a log record: "+trunc(l, 200), wit())
 						}
 					}
 				}
@@ -669,10 +696,10 @@ func main() {
 			// the resolver only ever sees what it may see
 			for _, rc := range o.Resolver {
 				if jwsShaped(rc) {
-					r.Violation("resolver-got-jws-shaped:"+cs.class, "a JWS-shaped credential reached the resolver", wit())
+					r.Violation("resolver-got-jws-shaped", "a JWS-shaped credential ("+cs.class+") reached the resolver", wit())
 				}
 				if oversized(rc) {
-					r.Violation("resolver-got-oversized:"+cs.class, fmt.Sprintf("a credential of %d characters reached the resolver", len([]rune(rc))), wit())
+					r.Violation("resolver-got-oversized", fmt.Sprintf("a credential of %d characters (%s) reached the resolver", len([]rune(rc)), cs.class), wit())
 				}
 			}
 
@@ -698,15 +725,15 @@ func main() {
 			case cl.expect403:
 				// (2) one fixed 403 before reading the subject
 				if o.Status != http.StatusForbidden {
-					r.Violation("not-403:"+cl.kind, fmt.Sprintf("caller %q got status %d, not 403", cl.kind, o.Status), wit())
+					r.Violation("not-403:"+callerGroup(cl.kind), fmt.Sprintf("caller %q got status %d, not 403", cl.kind, o.Status), wit())
 				} else if first, same := fixed.check(403, o.Body); !same {
 					r.Violation("403-body-varies", fmt.Sprintf("403 bodies differ: %q vs %q", trunc(first, 100), trunc(o.Body, 100)), wit())
 				}
 				if o.BytesRead != 0 {
-					r.Violation("body-read-before-403:"+cl.kind, fmt.Sprintf("%d request-body bytes were read for a caller that is refused", o.BytesRead), wit())
+					r.Violation("body-read-before-403:"+callerGroup(cl.kind), fmt.Sprintf("%d request-body bytes were read for a caller that is refused", o.BytesRead), wit())
 				}
 				if o.ResolverN != 0 {
-					r.Violation("resolver-invoked-for-refused-caller:"+cl.kind, "resolver invoked for an unauthenticated / non-allowlisted caller", wit())
+					r.Violation("resolver-invoked-for-refused-caller:"+callerGroup(cl.kind), "resolver invoked for an unauthenticated / non-allowlisted caller", wit())
 				}
 				switch {
 				case !s.hasAuth:
@@ -739,14 +766,14 @@ func main() {
 					break
 				}
 				if cs.mustNotResolve && o.ResolverN != 0 {
-					r.Violation("resolver-invoked:"+cs.class, "resolver invoked for a JWS-shaped or oversized credential", wit())
+					r.Violation("resolver-invoked:"+credGroup(cs.class), "resolver invoked for a JWS-shaped or oversized credential ("+cs.class+")", wit())
 				}
 				if cs.expect404 && o.Status != http.StatusNotFound {
-					r.Violation("unresolvable-not-404:"+cs.class, fmt.Sprintf("unresolvable credential answered with %d", o.Status), wit())
+					r.Violation("unresolvable-not-404:"+credGroup(cs.class), fmt.Sprintf("unresolvable credential answered with %d", o.Status), wit())
 				}
 				if o.Status == http.StatusNotFound {
 					if first, same := fixed.check(404, o.Body); !same {
-						r.Violation("404-body-varies:"+cs.class, fmt.Sprintf("404 bodies differ: %q vs %q", trunc(first, 100), trunc(o.Body, 100)), wit())
+						r.Violation("404-body-varies", fmt.Sprintf("404 bodies differ: %q vs %q", trunc(first, 100), trunc(o.Body, 100)), wit())
 					}
 					switch {
 					case cs.mustNotResolve && strings.HasPrefix(cs.class, "jws"):
